@@ -64,7 +64,7 @@ func myInsertStmt(names []string, id int, plain string, vals []string, cols []co
 
 func myColWorld(w *kernel.World, plan *kernel.Plan, rng *kernel.RNG, cols []colKind) (*PgWorld, []string, error) {
 	pw, err := NewPgWorld(w, rng, PgWorldConfig{SchemaYAML: schemaYAML(cols), Clients: []string{owner, stranger}, ChunkMode: int(plan.Sw("chunk")),
-		MySQL: true, MyDeprecateEOF: plan.Sw("depeof") == 1, KeyFaultNth: int(plan.Sw("keyfault"))})
+		MySQL: true, MyDeprecateEOF: plan.Sw("depeof") == 1, KeyFaultNth: int(plan.Sw("keyfault")), KeystoreV2: plan.Sw("ksv2") == 1})
 	if err != nil {
 		return nil, nil, err
 	}
